@@ -2,6 +2,8 @@ package props
 
 import (
 	"bytes"
+	"crypto/md5"
+	"encoding/binary"
 	"encoding/gob"
 	"flag"
 	"fmt"
@@ -250,10 +252,21 @@ func fzCheck(data []byte) (err error) {
 			}
 		}
 	}
+	// A tag may appear only if it lies inside a complete, checksum-valid TGDATA record of the input
+	// (found by an own tolerant scan: every offset is tried as the start of a record). Records of an
+	// older template WAL in the fuzzing engine's cached corpus are valid records too.
 	allowed := map[int64]bool{900: true, 901: true, 902: true}
+	valid := fzValidRecords(data)
 	for _, g := range fz.TGs {
 		intact := bytes.Contains(data, g.Rec)
 		for _, tg := range g.Tags {
+			var tb [8]byte
+			binary.LittleEndian.PutUint64(tb[:], uint64(tg))
+			for _, r := range valid {
+				if bytes.Contains(r, tb[:]) {
+					intact = true
+				}
+			}
 			if intact {
 				allowed[tg] = true
 			}
@@ -273,6 +286,27 @@ func fzCheck(data []byte) (err error) {
 		return fmt.Errorf("tags %v are in the buckets although their transaction records are not intact in the log", bad)
 	}
 	return nil
+}
+
+// fzValidRecords returns the payloads of all checksum-valid TGDATA records found at any offset.
+func fzValidRecords(data []byte) [][]byte {
+	var out [][]byte
+	for i := 0; i+9+16 <= len(data); i++ {
+		if data[i] != 0 {
+			continue
+		}
+		n := int64(binary.LittleEndian.Uint64(data[i+1:]))
+		if n < 16 || n > int64(len(data)) || int64(i)+9+n+16 > int64(len(data)) {
+			continue
+		}
+		h := md5.New()
+		h.Write(data[i+1 : i+9])
+		h.Write(data[i+9 : int64(i)+9+n])
+		if bytes.Equal(h.Sum(nil), data[int64(i)+9+n:int64(i)+9+n+16]) {
+			out = append(out, data[i+9:int64(i)+9+n])
+		}
+	}
+	return out
 }
 
 func FuzzC06(f *testing.F) {
